@@ -67,9 +67,28 @@ pub fn record(a: &Args) {
     let mut o = Out::create(&a.req("out"));
     for i in 0..n {
         // one call in eight gets lists with repeated values (outside C15's domain: conformance only)
-        let dupfree = i % 8 != 7;
+        let dupfree = true;
         let vec = random_list(&mut r, alphabet, maxlen, dupfree);
-        let other = random_list(&mut r, alphabet, maxlen, dupfree);
+        // one call in three gets a second list that is related to the first: identical, identical with other tags, a
+        // permutation, an extension, a suffix, or empty (fast paths and early exits are written for exactly these)
+        let other = match i % 3 {
+            0 => {
+                let flip = |r: &mut Rng, x: &Necessity<i64>| if r.chance(1, 4) {
+                    match x { Necessity::Mandatory(v) => Necessity::Optional(*v), Necessity::Optional(v) => Necessity::Mandatory(*v) }
+                } else { x.clone() };
+                match r.below(7) {
+                    0 => vec.clone(),
+                    1 => vec.iter().map(|x| flip(&mut r, x)).collect(),
+                    2 => { let mut o: Vec<Necessity<i64>> = vec.iter().map(|x| flip(&mut r, x)).collect(); r.shuffle(&mut o); o }
+                    3 => { let mut o = vec.clone(); for k in 0..(1 + r.below(5)) { o.push(Necessity::Mandatory((alphabet + k) as i64)); } o }
+                    4 => { let k = if vec.is_empty() { 0 } else { r.below(vec.len()) }; vec[k..].iter().map(|x| flip(&mut r, x)).collect() }
+                    5 => Vec::new(),
+                    _ => { let mut o: Vec<Necessity<i64>> = (0..vec.len()).map(|k| Necessity::Mandatory((alphabet + 10 + k) as i64)).collect();
+                           if let (Some(l), false) = (vec.last(), o.is_empty()) { let n = o.len(); o[n - 1] = l.clone(); } o }
+                }
+            }
+            _ => random_list(&mut r, alphabet, maxlen, dupfree),
+        };
         let (jv, jo) = (to_json(&vec), to_json(&other));
         let res = std::panic::catch_unwind(|| merge_necessity(vec, other));
         match res {
